@@ -32,6 +32,11 @@ for d in sorted(glob.glob(os.path.join(HERE, "seeded", "*"))):
                                             str(db.get("initially_missed", db.get("why", ""))).replace("|", "/")[:300]))
 D = between(D, "SEEDS", "\n".join(rows) + "\n")
 D = re.sub(r"\n\d+ were genuine and repaired in /repo", "\n%d were genuine and repaired in /repo" % len(k["fixed"]), D)
+D = re.sub(r"\); \d+ are recorded as known findings\.", "); %d are recorded as known findings." % len(k["findings"]), D)
+import subprocess as _sp
+_head = _sp.run(["git", "-C", "/repo", "rev-parse", "--short", "HEAD"], capture_output=True, text=True).stdout.strip()
+if _head:
+    D = re.sub(r"last run on [0-9a-f]{7,}", "last run on " + _head, D)
 D = re.sub(r"§0\.4 genuine defects found \(\d+ repaired, \d+ recorded\)", "§0.4 genuine defects found (%d repaired, %d recorded)" % (len(k["fixed"]), len(k["findings"])), D)
 open(os.path.join(HERE, "DESIGN.md"), "w").write(D)
 print("fixes %d, findings %d, seeds %d" % (len(k["fixed"]), len(k["findings"]), len(glob.glob(os.path.join(HERE, "seeded", "*")))))
